@@ -11,6 +11,7 @@ import Frrs.Replace
 import Frrs.Identity
 import Frrs.Commit
 import Frrs.Filter
+import Frrs.Oracle
 namespace Frrs.Ops
 open Frrs Frrs.Wire
 
@@ -222,6 +223,16 @@ def dispatch (op : String) (args : List String) : Option String :=
       let r := runBytes o (← decBytes stream)
       let cm := commitMap (fun m => if 1 ≤ m && m ≤ nmarks then some (fakeId m) else none) r.pairs
       pure ((if r.ok then "ok " else "err ") ++ encBytes r.out ++ " " ++ encBytes cm ++ " " ++ encBytes (refMap r.refRenames))
+  -- property oracles on implementation-supplied outputs
+  | "oracle-stream", [opts, stream, filtered, cmap, rmap] => do
+      let some o := parseFOpts opts | pure "ok"
+      let x : OIn := { o := o, src := importBytes (← decBytes stream), dst := importBytes (← decBytes filtered),
+                       cmap := parseMapLines (← decBytes cmap), rmap := parseMapLines (← decBytes rmap) }
+      let errs := oracleAll x
+      pure (if errs.isEmpty then "ok" else "FAIL " ++ (" || ".intercalate (errs.take 6)).replace "\n" " ")
+  | "import", [stream] => do
+      let s := importBytes (← decBytes stream)
+      pure (match s.failed with | some w => "failed: " ++ w | none => "ok commits=" ++ toString s.nCommits ++ " refs=" ++ toString (s.refs.filter (·.2.isSome)).length)
   | _, _ => none
 
 end Frrs.Ops
